@@ -95,8 +95,8 @@ CLAIMS["C11"] = (
     "frames consumed (ghost frame counters).",
     "Trusted: io.ReadFull fills the buffer or fails, io.Writer.Write, bytes.Buffer (NewBuffer/Write/Bytes contracts), bucketpool.Get returns "
     "a buffer of the requested length. The BYTES of a frame body are whatever io.ReadFull delivered: that the reassembled packet is the "
-    "concatenation of the bodies rests on the engine's append semantics (prefix preserved), it is not stated as a sequence equality. NOT "
-    "under contract: ReadEphemeralPacketDirect, the ephemeral write path (StartEphemeralPacket / writeEphemeralPacket).",
+    "concatenation of the bodies rests on the engine's append semantics (prefix preserved), it is not stated as a sequence equality. ReadEphemeralPacketDirect (handshake) "
+    "returns one short frame or fails. NOT under contract: the ephemeral write path (StartEphemeralPacket / writeEphemeralPacket).",
     "DESIGN.md section 4, C11")
 
 CLAIMS["C16"] = (
